@@ -177,6 +177,28 @@ def run(ctx):
                           "empty: every @SQ field other than SN/LN is dropped when the BAM is read" % f.root, f.loc(stores[0]))
     ctx.floor("C06.R3", "BAM header readers that adopt the binary reference list", nov, 2)
 
+    ctx.rule("C06.R8", "SAM and BAM carry the same bases: a function that takes the raw bytes of a 4-bit packed sequence (two bases per byte, "
+                       "the last nibble is padding for an odd count) also consults the base count; decoding the bytes alone writes the padding as a base")
+    n8 = 0
+    for k, f in sorted(fb.fns.items()):
+        if not f.blocks or "sequence_ref::four_bit_packed" in k or not k.startswith(("noodles_", "<noodles_")):
+            continue
+        raw = [b for b, c in f.calls() if re.search(r"FourBitPacked<'\w+> as core::convert::AsRef<\[u8\]>>::as_ref$", c.get("f") or "")]
+        if not raw:
+            continue
+        n8 += 1
+        ctx.saw_fn(f)
+        counts = [c for g in fb.family(f.root if f.root in fb.fns else k) for b, c in g.calls()
+                  if re.search(r"(FourBitPacked::<'\w+>|FourBitPacked|SequenceRef::<'\w+>|SequenceRef|alignment::record::sequence::Sequence)::(len|is_empty|base_count)$", c.get("f") or "")]
+        if counts:
+            ctx.ok("C06.R8", k, "reads the packed bytes and the base count (%s)" % counts[0]["f"].split("::")[-1], f.loc(raw[0]))
+        else:
+            ctx.violation("C06.R8", "C06.R8/packed-bytes-without-count/" + k,
+                          "%s decodes the raw bytes of a 4-bit packed sequence without ever asking for the base count: for an odd number of "
+                          "bases the padding nibble of the last byte is emitted as an extra base (`=`), so BAM -> SAM adds a base to every "
+                          "odd-length read" % k, f.loc(raw[0]))
+    ctx.floor("C06.R8", "functions outside the type's module that take the raw packed bytes", n8, 1)
+
     ctx.rule("C06.R4", "A3 pairing: RNEXT '=' produced only by the mate-name writer and expanded by the parser's mate arm")
     eqs = [k for k, c in fb.consts.items() if k.startswith(S) and c.get("v", c.get("raw")) in (0x3d, "3d") and re.search(r"(EQ|SAME|IDENTICAL)", k.split("::")[-1])]
     fwm = ctx.anchor("C06.R4", S + "io::writer::record::reference_sequence_name::write_mate_reference_sequence_name")
